@@ -118,7 +118,7 @@ impl<'a> Sink<'a> {
             st.samples.push(json!({"case": c.to_json(), "emulator": r.emu.brief(), "native": sig_name(r.native_sig), "differences": r.diffs.len()}));
         }
         // branch taken / not-taken vacuity bookkeeping
-        if let Some(d) = decode_at(&c.bytes, c.sigma.rip) {
+        if let Some(d) = decode_at(c.at_rip(), c.sigma.rip) {
             if d.instr.flow_control() == FlowControl::ConditionalBranch && r.native_sig == 0 {
                 let e = st
                     .flags_seen
@@ -141,7 +141,7 @@ impl<'a> Sink<'a> {
             }
             any = true;
             let key = format!("{}|{}|{}", r.subject, d.observable, r.class);
-            let instr_txt = decode_at(&c.bytes, c.sigma.rip)
+            let instr_txt = decode_at(c.at_rip(), c.sigma.rip)
                 .map(|d| format!("{}", d.instr))
                 .unwrap_or_default();
             let is_new = !self.findings.map.contains_key(&key);
@@ -985,19 +985,23 @@ fn extra_control_templates(c: &Census) -> Vec<Tmpl> {
 /// S8a: stack instructions × RSP placement × values.
 pub fn s8_stack_single(p: &Plan, sink: &mut Sink) {
     sink.tag = "S8a".into();
+    // placement classes: interior of the stack page, its low edge (a push crosses into the
+    // unmapped guard below), its high edge (a pop crosses into the guard above)
     let rsps: Vec<(u64, &str)> = vec![
-        (STACK + 0x800, "mid"),
-        (STACK + 0x801, "mis1"),
-        (STACK + 0x802, "mis2"),
-        (STACK + 0x804, "mis4"),
-        (STACK + 0x807, "mis7"),
-        (STACK, "first-slot"),
-        (STACK + 2, "near-first"),
-        (STACK + 8, "second-slot"),
-        (STACK + PAGE - 8, "last-slot"),
-        (STACK + PAGE - 2, "last-word"),
-        (STACK + PAGE, "end"),
-        (STACK + PAGE - 16, "last-but-one"),
+        (STACK + 0x800, "in"),
+        (STACK + 0x801, "in"),
+        (STACK + 0x802, "in"),
+        (STACK + 0x804, "in"),
+        (STACK + 0x807, "in"),
+        (STACK + 16, "in"),
+        (STACK + PAGE - 24, "in"),
+        (STACK, "lo-edge"),
+        (STACK + 2, "lo-edge"),
+        (STACK + 8, "lo-edge"),
+        (STACK + PAGE - 8, "hi-edge"),
+        (STACK + PAGE - 2, "hi-edge"),
+        (STACK + PAGE, "hi-edge"),
+        (STACK + PAGE - 16, "hi-edge"),
     ];
     let flags = [0u64, ALL_FLAGS];
     for t in p.canon {
@@ -1064,6 +1068,123 @@ pub fn s8_stack_single(p: &Plan, sink: &mut Sink) {
                         ..Default::default()
                     };
                     value_cases(t, &o, sink);
+                }
+            }
+        }
+    }
+}
+
+/// S8b: every program of length <= `maxlen` over a 16-instruction stack alphabet.  The native
+/// CPU generates the reachable states; from each of them the one next transition is compared
+/// (so exploration continues past a divergence: the next step starts from the native state).
+pub fn s8b_programs(p: &Plan, maxlen: usize, sink: &mut Sink) {
+    sink.tag = "S8b".into();
+    let alphabet: [&[u8]; 16] = [
+        &[0x50],                         // push rax
+        &[0x53],                         // push rbx
+        &[0x66, 0x50],                   // push ax
+        &[0x6A, 0xFF],                   // push -1
+        &[0x68, 0x40, 0x09, 0x00, 0x40], // push 0x40000940
+        &[0x59],                         // pop rcx
+        &[0x5A],                         // pop rdx
+        &[0x66, 0x59],                   // pop cx
+        &[0x48, 0x8B, 0x14, 0x24],       // mov rdx,[rsp]
+        &[0x48, 0x89, 0x34, 0x24],       // mov [rsp],rsi
+        &[0x48, 0x8B, 0x54, 0x24, 0x08], // mov rdx,[rsp+8]
+        &[0x48, 0x89, 0x74, 0x24, 0xF8], // mov [rsp-8],rsi
+        &[0x48, 0x83, 0xEC, 0x08],       // sub rsp,8
+        &[0x48, 0x83, 0xC4, 0x08],       // add rsp,8
+        &[0xE8, 0x00, 0x00, 0x00, 0x00], // call next
+        &[0xC3],                         // ret
+    ];
+    let _ = p;
+    let sled_off = 0x100usize; // relative to OFF
+    let region_len = 0x180usize;
+    let rsp0 = STACK + 0x800;
+    for len in 1..=maxlen {
+        let total = 16usize.pow(len as u32);
+        for code in 0..total {
+            if !sink.next() {
+                continue;
+            }
+            let mut bytes = vec![0xCCu8; region_len];
+            for b in bytes[sled_off..].iter_mut() {
+                *b = 0x90;
+            }
+            let mut pos = 0usize;
+            let mut rem = code;
+            let mut names = vec![];
+            for _ in 0..len {
+                let item = alphabet[rem % 16];
+                names.push(rem % 16);
+                rem /= 16;
+                bytes[pos..pos + item.len()].copy_from_slice(item);
+                pos += item.len();
+            }
+            // fall off the end of the program into the sled
+            bytes[pos] = 0xEB; // jmp rel8 to the sled
+            bytes[pos + 1] = (sled_off - (pos + 2)) as u8;
+            let mut s = default_sigma(OFF);
+            s.gpr[4] = rsp0;
+            s.gpr[0] = CODE + OFF as u64 + sled_off as u64 + 0x10; // rax
+            s.gpr[3] = CODE + OFF as u64 + sled_off as u64 + 0x20; // rbx
+            s.gpr[6] = CODE + OFF as u64 + sled_off as u64 + 0x30; // rsi
+            // stack window seeded with landing addresses inside the sled
+            let mut pokes: Vec<(u64, Vec<u8>)> = vec![];
+            for k in -12i64..=12 {
+                let a = (rsp0 as i64 + 8 * k) as u64;
+                let v = CODE + OFF as u64 + sled_off as u64 + (0x40 + ((k + 12) as u64 % 8) * 4);
+                pokes.push((a, v.to_le_bytes().to_vec()));
+            }
+            for step in 0..len {
+                // the next instruction must be one of the program's (not the sled / filler)
+                let d = match decode_at(
+                    {
+                        let start = CODE + OFF as u64;
+                        if s.rip < start || s.rip >= start + pos as u64 {
+                            break;
+                        }
+                        &bytes[(s.rip - start) as usize..]
+                    },
+                    s.rip,
+                ) {
+                    Some(d) => d,
+                    None => break,
+                };
+                let _ = d;
+                let case = Case {
+                    bytes: bytes.clone(),
+                    off: OFF,
+                    sigma: s.clone(),
+                    pokes: pokes.clone(),
+                    tag: "S8b".into(),
+                    extra_class: "prog".to_string(),
+                    subject: String::new(),
+                };
+                sink.run(case);
+                let n = match &sink.w.last_native {
+                    Some(n) => n.clone(),
+                    None => break,
+                };
+                if n.sig != 0 {
+                    break; // native fault (e.g. return to a non-canonical pushed value)
+                }
+                // next pre-state = native post-state
+                s.rip = n.rip;
+                s.gpr = n.gpr;
+                s.flags = n.flags & (STATUS_FLAGS | DF);
+                let stack_now = sink.w.stub.view(Region::Stack).to_vec();
+                let rw_now = sink.w.stub.view(Region::Rw).to_vec();
+                pokes.clear();
+                for (reg, base, now) in [(Region::Stack, STACK, &stack_now), (Region::Rw, RW, &rw_now)] {
+                    let pr = &sink.w.stub.pristine[reg as usize];
+                    let mut q = 0usize;
+                    while q < PAGE as usize {
+                        if now[q..q + 8] != pr[q..q + 8] {
+                            pokes.push((base + q as u64, now[q..q + 8].to_vec()));
+                        }
+                        q += 8;
+                    }
                 }
             }
         }
